@@ -738,6 +738,59 @@ def gen_all():
             [("full_length", N)], {"full_length": ("full_length", "usize")})
     e("")
 
+    # ---- the gates and the matching tests of RecordSet::from_msg (src/records/record_set.rs) ----------
+    RS = "src/records/record_set.rs"
+    RSP = ["C06", "C07"]
+    B = "Bool"
+
+    def message_type_from_bool():
+        # `impl From<bool> for MessageType`: `if value { Self::Response } else { Self::Query }`
+        src = strip_comments(read("src/message/message_type.rs"))
+        m = re.search(r"impl\s+From<bool>\s+for\s+MessageType\s*\{\s*fn\s+from\(value:\s*bool\)\s*->\s*Self\s*\{\s*if\s+value\s*\{\s*Self::(\w+)\s*\}\s*else\s*\{\s*Self::(\w+)\s*\}", src)
+        if not m:
+            raise ParseError("impl From<bool> for MessageType not in the expected shape")
+        g.emit("/-- `src/message/message_type.rs` : `From<bool>`: `true` ↦ `%s`, `false` ↦ `%s`; `message_type_is_response b` = the value made from `b` is `Response` -/" % (m.group(1), m.group(2)))
+        if m.group(1) == "Response" and m.group(2) == "Query":
+            g.emit("def message_type_is_response (b : Bool) : Bool := b")
+        elif m.group(1) == "Query" and m.group(2) == "Response":
+            g.emit("def message_type_is_response (b : Bool) : Bool := !b")
+        else:
+            raise ParseError("unexpected variants %s/%s" % (m.group(1), m.group(2)))
+    g.attempt("guard[C06,C07] src/message/message_type.rs:impl From<bool>", message_type_from_bool,
+              lambda: g.emit("def message_type_is_response (b : Bool) : Bool := false"))
+    g.guard(RSP, RS, "from_msg", r"\bif\s+(flags\.message_type\(\)[^{]*?)\s*\{\s*return\s+Err\(\s*Error::BadMessageType", "rrset_not_response",
+            [("is_response", B)], {"ISRESP": ("is_response", "bool"), "TRUE": ("true", "bool")},
+            subst=[(r"flags\.message_type\(\)", "ISRESP"), (r"MessageType::Response", "TRUE")])
+    g.guard(RSP, RS, "from_msg", r"\bif\s+(flags\.truncated\(\)[^{]*?)\s*\{\s*return\s+Err\(\s*Error::MessageTruncated", "rrset_truncated",
+            [("tc", B)], {"TC": ("tc", "bool")}, subst=[(r"flags\.truncated\(\)", "TC")])
+    def rcode_noerror():
+        src = strip_comments(read("src/message/rcode.rs"))
+        m = re.search(r"pub\s+const\s+NOERROR\s*:\s*RCode\s*=\s*RCode::new\(\s*(\d+)\s*\)\s*;", src)
+        if not m:
+            raise ParseError("RCode::NOERROR not found")
+        g.emit("/-- `src/message/rcode.rs` : `RCode::NOERROR` -/")
+        g.emit("def RCODE_NOERROR : Nat := %s" % m.group(1))
+    g.attempt("guard[C06,C07] src/message/rcode.rs:NOERROR", rcode_noerror, lambda: g.emit("def RCODE_NOERROR : Nat := 65536"))
+    g.guard(RSP, RS, "from_msg", r"\bif\s+(response_code[^{]*?)\s*\{\s*return\s+Err\(\s*Error::BadResponseCode", "rrset_bad_rcode",
+            [("response_code", "Nat")], {"response_code": ("response_code", "u16"), "NOERROR": ("RCODE_NOERROR", "u16")},
+            subst=[(r"RCode::NOERROR", "NOERROR")])
+
+    match_env = {"NAMEEQ": ("name_eq", "bool"), "TYPEEQ": ("type_eq", "bool"), "CLASSEQ": ("class_eq", "bool")}
+    g.guard(RSP, RS, "extract_rrset", r"\bif\s+(h\.name\(\)[^{]*?)\s*\{\s*rrset\.ttl\s*=", "rrset_record_matches",
+            [("name_eq", B), ("type_eq", B), ("class_eq", B)], match_env,
+            subst=[(r"h\.name\(\)\.eq\(name\)\?", "NAMEEQ"), (r"h\.rtype\(\)\s*==\s*D::RTYPE", "TYPEEQ"), (r"h\.rclass\(\)\s*==\s*rclass", "CLASSEQ")])
+    g.guard(RSP, RS, "extract_cname", r"\bif\s+(h\.name\(\)[^{]*?)\s*\{\s*let\s+n\s*=", "rrset_cname_matches",
+            [("name_eq", B), ("type_eq", B), ("class_eq", B)], match_env,
+            subst=[(r"h\.name\(\)\.eq\(name\)\?", "NAMEEQ"), (r"h\.rtype\(\)\s*==\s*Type::CNAME", "TYPEEQ"), (r"h\.rclass\(\)\s*==\s*rclass", "CLASSEQ")])
+    g.guard(RSP, RS, "extract_rrset", r"rrset\.ttl\s*=\s*([^;]*?)\s*;", "rrset_ttl_step",
+            [("ttl", "Nat"), ("record_ttl", "Nat")], {"rrset.ttl": ("ttl", "u32"), "HTTL": ("record_ttl", "u32")},
+            subst=[(r"h\.ttl\(\)", "HTTL")], ret="Nat")
+    g.guard(RSP, RS, "extract_rrset", r"\bif\s+(!?rrset\.rdata\.is_empty\(\))\s*\{\s*Ok\(Some\(rrset\)\)", "rrset_found",
+            [("rdata_is_empty", B)], {"EMPTY": ("rdata_is_empty", "bool")}, subst=[(r"rrset\.rdata\.is_empty\(\)", "EMPTY")])
+    g.guard(RSP, RS, "read_opt", r"\bif\s+(marker\.rtype[^{]*?)\s*\{\s*opt\s*=", "rrset_is_opt",
+            [("rtype", "Nat")], {"marker.rtype": ("rtype", "u16"), "OPT": ("TYPE_OPT", "u16")}, subst=[(r"Type::OPT", "OPT")])
+    e("")
+
     # ---- decision points of the query clients (both sources: hand-written std, async template) -------
     # the executable client model evaluates every one of these, so each is an obligation of all six
     # client properties
